@@ -76,25 +76,43 @@ func resultType(c *ssa.CallCommon) types.Type {
 // doCall dispatches a call and binds ghost names declared for static callee results.
 func (fc *FnCtx) doCall(fr *Frame, st *State, instr ssa.Instruction, c *ssa.CallCommon, fnVal Val, args []Val) Val {
 	prePC := st.pc
-	if fr.top && fr.spec != nil && len(fr.spec.Befores) > 0 && !c.IsInvoke() {
+	if fr.top && fr.spec != nil && len(fr.spec.Befores) > 0 {
 		name := ""
-		if cv, ok := fnVal.(*ClosureVal); ok && cv.Fn != nil {
+		if c.IsInvoke() {
+			name = c.Method.Name() // interface method call: named by the method
+		} else if cv, ok := fnVal.(*ClosureVal); ok && cv.Fn != nil {
 			name = cv.Fn.Name()
 			if i := strings.Index(name, "["); i >= 0 {
 				name = name[:i]
 			}
 		} else if u, ok := c.Value.(*ssa.UnOp); ok {
-			// call through a function-typed local variable: named by the variable
+			// call through a function-typed local variable / struct field: named by the variable / field
 			if al, ok := u.X.(*ssa.Alloc); ok {
 				name = al.Comment
 			}
+			if fa, ok := u.X.(*ssa.FieldAddr); ok {
+				if _, stt := structOf(fa.X.Type()); stt != nil {
+					name = stt.Field(fa.Field).Name()
+				}
+			}
 		}
 		if name != "" {
+			full := ""
+			if cv, ok := fnVal.(*ClosureVal); ok && cv.Fn != nil && !c.IsInvoke() {
+				full = funcDisplayName(cv.Fn) // e.g. sync.(*syncStore).Head
+			}
 			for i, b := range fr.spec.Befores {
-				if b.Callee != name {
+				// the callee may be named plainly (Head) or with its receiver ((*syncStore).Head)
+				if b.Callee != name && !(full != "" && strings.Contains(b.Callee, ")") && strings.HasSuffix(full, "."+b.Callee)) {
 					continue
 				}
 				env := fc.topEnv(fr, fr.spec)
+				// the call's actual arguments are visible as arg0, arg1, ...
+				for ai, av := range args {
+					if ai < len(c.Args) {
+						env.bind(fmt.Sprintf("arg%d", ai), av, c.Args[ai].Type())
+					}
+				}
 				t := fc.evalClauseEnv(st, fc.entry, b.Clause, env)
 				pos := token.NoPos
 				if instr != nil {
